@@ -36,7 +36,7 @@ REQUIRED_SEEN = {"switches": ["out1err1log1", "out1err1log0", "out1err0log1", "o
                               "out0err0log1", "out0err0log0"],
                  "log_habit": ["plain", "flush", "bulk"], "setup_logging_from_hook": ["DEBUG", "WARNING"],
                  "capture_switched_at_runtime": ["per scenario"],
-                 "passthrough_logging_project": ["environment_without_before_all"], "logging_filter_shape": ["include_and_exclude", "include_only", "exclude_only"]}
+                 "raising_hook_decoration": ["capture"], "capture_output_block_left_by": ["normal exit", "ValueError", "AssertionError", "KeyboardInterrupt", "SystemExit"], "passthrough_logging_project": ["environment_without_before_all"], "logging_filter_shape": ["include_and_exclude", "include_only", "exclude_only"]}
 NSHARDS = {"quick": 16, "thorough": 16}
 MARK = re.compile(r"\[([BMAS])\|([^|\]]*)\|([^|\]]*)\|(out|err|log|dbg|side)\]")
 
@@ -237,8 +237,12 @@ def run_case(lab, mon, case, rng, sample=False):
         st.real_out.on_write = on_real_write
         st.real_err.on_write = on_real_write
     lab._case_w = {"args": args, "features": RB.case_texts(case)[:1]}
-    obs = lab.run(program, args=args, step_plugins=[step_plugin], hook_plugins=[hook_plugin], formatters=formatters,
-                  pre_run=pre_run, hook_fault=case.get("hook_fault"))
+    lab.capture_hooks = set(case.get("capture_decorated_hooks") or ()) or None
+    try:
+        obs = lab.run(program, args=args, step_plugins=[step_plugin], hook_plugins=[hook_plugin], formatters=formatters,
+                      pre_run=pre_run, hook_fault=case.get("hook_fault"))
+    finally:
+        lab.capture_hooks = None
     lab._state = None
     W = lambda **kw: RB.witness(case, switches=sw, **kw)
     pred = runmodel.predict(program, cfg)
@@ -326,6 +330,42 @@ def run_case(lab, mon, case, rng, sample=False):
     if sample:
         mon.sample({"features": RB.case_texts(case), "args": args, "switches": sw, "markers_produced": len(printed),
                     "real_stdout_head": real_out[:200], "real_stderr_head": real_err[:200]})
+
+
+def capture_output_helper(mon, rng):
+    """behave.capture.capture_output(controller, enabled) -- the public context manager around start/stop: however the block is
+    left, sys.stdout / sys.stderr are the objects they were before, and what the block wrote is in the controller's buffers."""
+    from behave.capture import CaptureController, capture_output
+    from behave.configuration import Configuration
+    config = Configuration(rng.choice([[], ["--no-capture-stderr"], ["--no-logcapture"]]), load_config=False)
+    controller = CaptureController(config)
+    controller.setup_capture(type("Ctx", (object,), {})())
+    leave = rng.choice([None, ValueError, AssertionError, KeyboardInterrupt, SystemExit])
+    enabled = rng.random() < 0.8
+    out0, err0 = sys.stdout, sys.stderr
+    root = logging.getLogger()
+    handlers0, level0 = list(root.handlers), root.level
+    raised = None
+    try:
+        with capture_output(controller, enabled=enabled):
+            sys.stdout.write("[helper-out]\n")
+            if leave is not None:
+                raise leave("leaving the block")
+    except BaseException as ex:
+        raised = ex
+    restored = sys.stdout is out0 and sys.stderr is err0
+    sys.stdout, sys.stderr = out0, err0
+    try:
+        controller.teardown_capture()
+    except Exception:
+        pass
+    root.handlers[:] = handlers0
+    root.setLevel(level0)
+    case = {"kind": "capture_output helper", "enabled": enabled, "left_by": getattr(leave, "__name__", "normal exit"), "args": config.stdout_capture}
+    mon.case(("capture_output", enabled, case["left_by"]), True)
+    mon.check("helper.capture_output_restores_streams", restored and ((raised is None) if leave is None else isinstance(raised, leave)),
+              lambda: dict(case=case, stdout_restored=restored, raised=repr(raised)))
+    mon.seen("capture_output_block_left_by", case["left_by"])
 
 
 def subprocess_case(mon, rng, case):
@@ -429,6 +469,15 @@ def run(spec, mon):
             ks = [k for k, h in enumerate(obs0.hooks) if h[0] in ("before_step", "after_step")]
             if ks:
                 case["hook_fault"] = {"k": rng.choice(ks), "exc": "Exception"}
+        elif mode == 3:
+            # scenario-level hooks decorated with behave's @capture / @capture(level=...) (log capture for environment functions),
+            # one of them raising: at scenario end the root logger is as before all the same
+            obs0 = lab.run(case["program"], args=case["args"])
+            ks = [k for k, h in enumerate(obs0.hooks) if h[0] in ("before_scenario", "after_scenario")]
+            if ks:
+                case["hook_fault"] = {"k": rng.choice(ks), "exc": rng.choice(["Exception", "AssertionError"])}
+                case["capture_decorated_hooks"] = ["after_scenario", "before_scenario"]
+                mon.seen("raising_hook_decoration", "capture")
         elif mode == 2:
             obs0 = lab.run(case["program"], args=case["args"])
             hs = [h for h in obs0.hooks if h[0] in ("before_step", "after_step")]
@@ -436,6 +485,8 @@ def run(spec, mon):
                 h = rng.choice(hs)
                 case["ki_in_hook"] = [h[0], h[1][0], h[1][1]]
         run_case(lab, mon, case, rng, sample=(i == 0 and spec["shard"] == 0))
+    for i in range(12 if tier == "quick" else 400):
+        capture_output_helper(mon, rng)
     for i in range(1 if tier == "quick" else 30):
         case = RB.gen_case(rng, gen={"p_nonpass": 0.3, "max_features": 1, "outcomes": [o for o in OUTCOMES if o != "ki"]},
                            p_stop=0, p_dry=0, tags=False)
